@@ -75,6 +75,7 @@ pub fn run(ctx: &Ctx) -> i32 {
         if li % 17 == (ctx.seed as usize % 17) { acc.sample(json!({"leaf": crate::refmodel::dcbor::show(v), "encoding": hex::encode(crate::refmodel::dcbor::bytes(v)), "positions": 6})) }
         acc
     }).reduce(Acc::new, Acc::merge);
+    if std::env::var("VH_DEBUG").is_ok() { eprintln!("leaves done {:?}", ctx.t0.elapsed()); }
     let mut trees = families::plain(w);
     let nbuilt = trees.len();
     trees.extend(families::decode_only());
@@ -85,7 +86,7 @@ pub fn run(ctx: &Ctx) -> i32 {
         roundtrip(&mut acc, &e, m.encode(), "plain", true, &|| format!("tree{ti}"));
         let mut ds: Vec<D> = m.distinct_digests(); ds.push(families::absent_digest());
         let k = ds.len();
-        for mask in 1u32..(1u32 << k) {
+        for mask in families::masks(k).into_iter().skip(1) {
             let t: Vec<D> = (0..k).filter(|i| mask >> i & 1 == 1).map(|i| ds[i]).collect();
             let tset = bind::dset(&t);
             for revealing in [false, true] {
@@ -100,9 +101,25 @@ pub fn run(ctx: &Ctx) -> i32 {
         acc
     }).reduce(Acc::new, Acc::merge);
     acc = acc.merge(acc2);
+    if std::env::var("VH_DEBUG").is_ok() { eprintln!("trees done {:?}", ctx.t0.elapsed()); }
+    let wide = families::wide_tier(th);
+    let aw = wide.par_iter().enumerate().with_max_len(1).map(|(wi, (wn, m))| {
+        let mut acc = Acc::new();
+        let Ok(e) = catch(|| bind::build(m, 0)) else { acc.viol("C05|wide|build-panic", "panic building a wide shape", format!("wide/{wn}"), json!({})); return acc };
+        let small = m.encode().map(|b| b.len() < 4096).unwrap_or(false);
+        roundtrip(&mut acc, &e, m.encode(), "wide", small, &|| format!("wide/{wn}"));
+        let ds = m.distinct_digests();
+        for (di, d) in ds.iter().enumerate().filter(|(i, _)| *i < 5 || i % 101 == 0) { for (kind, action) in super::c02::actions() {
+            if let Ok(r) = catch(|| e.elide_removing_set_with_action(&bind::dset(&[*d]), &action)) { roundtrip(&mut acc, &r, None, &format!("wide-{kind:?}"), false, &|| format!("wide/{wn}/target{di}/{kind:?}")) }
+        } }
+        acc.nontrivial(&("wide", wi));
+        acc
+    }).reduce(Acc::new, Acc::merge);
+    acc = acc.merge(aw);
+    if std::env::var("VH_DEBUG").is_ok() { eprintln!("wide done {:?}", ctx.t0.elapsed()); }
     let evals = acc.get("roundtrips");
     let cov = json!({"evaluations": evals,
-        "rule": "case = an envelope (leaf value x position, or tree x obscuration pattern) encoded, decoded, compared position by position, re-encoded; UR round trip on leaves, plain trees and single-target patterns; distinct = (tree, subset, mode, action) or leaf encoding",
+        "rule": "(all subsets for envelopes with at most 10 distinct digests - every tree of the weight-bounded families; for the hand-built decode-only shapes with more, the empty / singleton / pair / full target sets) case = an envelope (leaf value x position, or tree x obscuration pattern) encoded, decoded, compared position by position, re-encoded; UR round trip on leaves, plain trees and single-target patterns; distinct = (tree, subset, mode, action) or leaf encoding",
         "exhaustive": true, "bounds": {"tree_weight": w, "leaf_alphabet": leaves.len()}});
     finish(ctx, acc, "exploration", cov, vec!["ur_string() documents register_tags() as a precondition; it is called at start-up".into()])
 }
